@@ -34,8 +34,8 @@ Rhs(k, m) == [i \in 1..m |-> IF k = 1 THEN FInt(i) ELSE FInt(IF i % 2 = 0 THEN -
 
 Init ==
   /\ n \in Dims
-  /\ A \in [1..n -> [1..n -> OffCells \cup DiagCells]]
-  /\ \A i \in 1..n : A[i][i] \in DiagCells /\ \A j \in 1..n : j # i => A[i][j] \in OffCells
+  /\ \E dg \in [1..n -> DiagCells], off \in [{p \in (1..n) \X (1..n) : p[1] # p[2]} -> OffCells] :
+        A = [i \in 1..n |-> [j \in 1..n |-> IF i = j THEN dg[i] ELSE off[<<i, j>>]]]
   /\ L = [i \in 1..n |-> [j \in 1..n |-> FAbsent]]
   /\ U = [i \in 1..n |-> [j \in 1..n |-> FAbsent]]
   /\ row = 1 /\ x = <<>> /\ nsolves = 0 /\ rhs = 0 /\ bad = FALSE /\ xs = <<>>
